@@ -115,6 +115,7 @@ def _parse_extensions(value: t.Optional[str]) -> t.Dict[str, t.List[str]]:
     while value:
         key, remaining = value.lstrip(" ").split(" ", 1)
         key = key[2:]
+        remaining = remaining.lstrip(" ")
 
         entries: t.List[str] = []
         if remaining.startswith("("):
